@@ -318,8 +318,11 @@ def _restored_after_parse(ctx: Ctx) -> Set[str]:
                                 tied = False
                                 par = getattr(x, "_parent", None)
                                 while par is not None and par is not n:
-                                    if isinstance(par, ast.If) and any(isinstance(y, ast.Constant) and y.value == other_key for y in ast.walk(par.test)) and any(x is z for b in par.body for z in ast.walk(b)):
-                                        tied = True
+                                    if isinstance(par, ast.If) and any(x is z for b in par.body for z in ast.walk(b)):
+                                        consts = {y.value for y in ast.walk(par.test) if isinstance(y, ast.Constant) and isinstance(y.value, str)}
+                                        # the only grounds for restoring: the exported data is a dict, and it has this key
+                                        if other_key in consts or (consts - {what}) or mentions(par.test, ov):
+                                            tied = True
                                     par = getattr(par, "_parent", None)
                                 if not tied:
                                     stored.add(what)
@@ -516,6 +519,80 @@ def nested_data_plumbing(ctx: Ctx, rep: Report, rid: str = "R16.13") -> None:
     rep.floor(2, "nested field objects rebuilt from their exported data")
 
 
+def objects_adopted_once(ctx: Ctx, rep: Report, rid: str = "R16.16") -> None:
+    """A builder that is handed ready-made objects keeps each of them, once: on every way through its loop on which the
+    item was recognised as an object of the package (isinstance) and no error was raised, that very object is appended
+    exactly once (two members that are equal are still two members; equality is the rendered text)."""
+    from .common import element_placements, loop_body_paths
+
+    rep.rule(rid)
+    base = ctx.cls("Base")
+    n = 0
+    for q in ("AceGroup.items.setter", "Acl.items.setter", "AddrGroup.items.setter", "AddressBase._init_items"):
+        f = ctx.prog.find_func(q)
+        if f is None:
+            continue
+        cfg = ctx.cfg(f)
+        for lp in [x for x in cfg.live if x.kind == "for" and isinstance(x.ast.target, ast.Name)]:
+            var = lp.ast.target.id
+            worst = None
+            seen = False
+            for path in loop_body_paths(cfg, lp):
+                if path[-1][0] is not lp:
+                    continue
+                atoms = [(nd.ast, lab == "T") for nd, lab in path if nd.kind == "cond" and lab in ("T", "F")]
+                is_obj = False
+                for t, tr in atoms:
+                    if tr and isinstance(t, ast.Call) and src(t.func) == "isinstance" and len(t.args) == 2 and src(t.args[0]) == var:
+                        names = [src(e) for e in (t.args[1].elts if isinstance(t.args[1], ast.Tuple) else [t.args[1]])]
+                        if any(nm in ctx.prog.classes or nm == "self.__class__" for nm in names):
+                            is_obj = True
+                if not is_obj:
+                    continue
+                seen = True
+                pl = []
+                for nd, _lab in path:
+                    if nd.kind == "stmt" and nd.ast is not None:
+                        pl += element_placements(nd.ast, var)
+                k = sum(1 for kind_, _c in pl if kind_ in ("append", "extend", "insert"))
+                if k != 1:
+                    held = "; ".join(f"{snippet(t, 30)}{'' if tr else ' (false)'}" for t, tr in atoms)
+                    worst = (k, held)
+                    break
+            if not seen:
+                continue
+            n += 1
+            rep.instance()
+            if worst is None:
+                rep.ok(f"{q}: for {var} in {snippet(lp.ast.iter, 30)}", "an object of the package is appended exactly once on every path that does not raise", where=where(f, lp.ast))
+            else:
+                rep.violation(q, f"path [{worst[1]}] places `{var}` {worst[0]} times", "a ready-made object handed to the builder is not kept exactly once: members that are equal to an earlier one (the same network written twice, 'host A' and 'A 0.0.0.0') are dropped on every copy and re-initialisation", where(f, lp.ast), inp="Address('object-group G', items=[AddressAg('host 10.0.0.1'), AddressAg('10.0.0.1 0.0.0.0')]).copy()")
+    rep.floor(2, "adopting loops") if n else None
+
+
+def blocks_keep_identity(ctx: Ctx, rep: Report, rid: str = "R16.18") -> None:
+    """Re-grouping rebuilds the blocks of an ACL (the items setter, every re-initialising switch and the port split end in
+    `Acl.group`): a block that is rebuilt under the same heading is the same block for the user, so the AceGroup built
+    for it receives the identifier and the note of the block it replaces."""
+    rep.rule(rid)
+    f = ctx.func("Acl.group")
+    ag = ctx.cls("AceGroup")
+    ctors = [x for x in own_nodes(f.node) if isinstance(x, ast.Call) and isinstance(x.func, ast.Name) and ctx.prog.resolve_name(f.module, x.func.id) is ag]
+    rep.instance()
+    rep.require(bool(ctors), "Acl.group no longer builds AceGroup blocks")
+    # where the identity of the existing blocks is read
+    reads_uuid = any(isinstance(x, ast.Attribute) and x.attr == "uuid" and isinstance(x.ctx, ast.Load) and src(x.value) != "self" for x in own_nodes(f.node))
+    reads_note = any(isinstance(x, ast.Attribute) and x.attr == "note" and isinstance(x.ctx, ast.Load) and src(x.value) != "self" for x in own_nodes(f.node))
+    for c in ctors:
+        kws = {k.arg for k in c.keywords}
+        explicit = {"uuid", "note"} <= kws
+        spread = any(k.arg is None for k in c.keywords) and reads_uuid and reads_note
+        if explicit or spread:
+            rep.ok(f"Acl.group: {snippet(c, 40)}", "the rebuilt block receives uuid and note of the block it replaces", where=where(f, c))
+        else:
+            rep.violation("Acl.group", snippet(c, 60), "a block that is rebuilt gets a fresh identifier and an empty note: every operation that re-groups (items setter, port_nr / protocol_nr / type / platform switches, ungroup_ports, delete_shadow) loses the identifier and the note of every AceGroup of a grouped ACL", where(f, c), inp="acl = Acl(text, group_by='=== '); acl.items[0].note = 'N'; acl.port_nr = True; acl.items[0].note == ''")
+
+
 def dict_builders_pass_everything(ctx: Ctx, rep: Report, rid: str = "R16.14", factories: bool = False) -> None:
     """A builder that turns an exported dict into an object (`_dict_to_*`, taking **kwargs) hands the whole dict to the
     constructor (or to a sibling builder) on every return: a builder that passes the text alone drops note and uuid."""
@@ -668,6 +745,8 @@ def run(ctx: Ctx, rep: Report, tier: str) -> None:
     r16_8(ctx, rep)
     settings_propagation(ctx, rep)
     dict_builders_pass_everything(ctx, rep)
+    objects_adopted_once(ctx, rep)
+    blocks_keep_identity(ctx, rep)
     # R16.15 premise: the exported line is read back to the same data: every selectable port name is in the splitter's
     # vocabulary (C09 R09.5)
     from .c09 import splitter_vocabulary
